@@ -115,10 +115,15 @@ func Harness_C12_PublishDisclosure() {
 
 // cleanSessionDetails never exposes transport.auth and never mutates the session's dict
 func Harness_C12_CleanSessionDetails() {
-	r := &realm{metaStrict: vBool("metaStrict")}
-	if r.metaStrict && vBool("includeExtra") {
-		r.metaIncDetails = []string{"extra"}
+	// configured through the public realm configuration
+	strict := vBool("metaStrict")
+	rc := &RealmConfig{URI: "realm1", AnonymousAuth: true, MetaStrict: strict}
+	if strict && vBool("includeExtra") {
+		rc.MetaIncludeSessionDetails = []string{"extra"}
 	}
+	rt := vNewRouter(&Config{RealmConfigs: []*RealmConfig{rc}})
+	defer rt.Close()
+	r := rt.realms["realm1"]
 	details := wamp.Dict{"session": wamp.ID(7), "authid": "alice", "extra": 1, "private": 2}
 	hasTransport := vBool("hasTransport")
 	hasAuth := vBool("hasAuth")
@@ -174,7 +179,7 @@ func Harness_C12_CleanSessionDetails() {
 		vAssert("session-transport-not-mutated", still)
 		vCover("auth-stripped")
 	}
-	if r.metaStrict {
+	if strict {
 		_, p := out["private"]
 		vAssert("strict-hides-nonstandard", !p)
 	}
